@@ -17,7 +17,7 @@ func init() {
 	core.Register(&core.Check{
 		ID:    "C15",
 		Level: "fault_enumeration",
-		Rule: "all function bodies of <=4 statements over the full alphabet and of 5 over a reduced one (thorough: <=5 over the full alphabet) statements over {print, value, defer, guarded defer true/false, return, guarded return true/false, raise, " +
+		Rule: "all function bodies of <=4 statements over the full alphabet and of 5 over a reduced one (thorough: <=5 over the full alphabet) statements over {print, value, defer, guarded defer true/false, return, guarded return true/false, raise, raise of nil / guarded raise of an int (a raise of something that is not an error ends the body like return), " +
 			"failing call, call of a function with its own defers, deferred expression that raises, defer/return whose guard expression raises, a list chain whose block fails with StopIterErr} plus iterator bodies with yield, each run in 7 contexts (direct call, called from a body with its own defer, three nested levels with several defers, as a method, per element of a list chain whose literal has its own defer, inside a try step, iterator next); " +
 			"stdout markers and outcome compared with a defer model; non-trivial = body contains a defer and an exit or a failing statement; distinct = distinct (body, context)",
 		Assumptions: []string{
@@ -33,7 +33,7 @@ inner := {|| defer "id".p; "ip".p; 5}
 `
 
 // statement kinds
-var alphabet = []string{"P", "V", "D", "DT", "DF", "DN", "DZ", "DC", "R", "RT", "RF", "X", "CF", "CD", "DX", "DG", "RG", "CS"}
+var alphabet = []string{"P", "V", "D", "DT", "DF", "DN", "DZ", "DC", "R", "RT", "RF", "X", "CF", "CD", "DX", "DG", "RG", "CS", "XN", "XG"}
 var reduced = []string{"P", "D", "DN", "DZ", "R", "X", "CF", "DX", "DG", "CS"}
 var iterAlphabet = []string{"P", "D", "DF", "DN", "Y", "YT", "YN", "YF", "X", "DX"}
 
@@ -68,6 +68,10 @@ func stmtSrc(kind string, k int) string {
 		return fmt.Sprintf("return %d if nil", 70+k)
 	case "X":
 		return fmt.Sprintf(`raise Err.new("x%d")`, k)
+	case "XN": // raise of something that is not an error ends the body like return does (docs/reference/statements.md)
+		return "raise nil"
+	case "XG":
+		return fmt.Sprintf("raise %d if [0]", 60+k)
 	case "CF":
 		return "fail()"
 	case "CD":
@@ -127,6 +131,12 @@ func model(stmts []string) outcome {
 			stopped = true
 		case "RF":
 			val = "nil"
+		case "XN":
+			val = "nil"
+			stopped = true
+		case "XG":
+			val = fmt.Sprint(60 + k)
+			stopped = true
 		case "X":
 			errK, errM = "Err", fmt.Sprintf("x%d", k)
 			stopped = true
